@@ -161,3 +161,27 @@ let () =
        | AttOk m' -> "ok " ^ show_pairs kio_name m'
        | AttRefused ks -> "refused " ^ String.concat "," (List.map kio_name.sk ks))
     | _ -> "?args")
+
+(* attachment API histories: atthist <ops ';'-separated>
+   put:k=rid | same:k | mod:k=rid | rm:k | bput:k=rid | copy:prefix | reread
+   out: per step  <1|0>@k=rid,...  joined by ';' *)
+let () =
+  register "atthist" (fun args -> match args with
+    | [ops] ->
+      let one_kv s = match parse_amap s with [(k, rid)] -> (k, rid) | _ -> failwith "kv" in
+      let ops = List.filter_map (fun op ->
+        if op = "" || op = "-" then None else
+        let body () = match String.index_opt op ':' with
+          | Some e -> String.sub op (e + 1) (String.length op - e - 1) | None -> failwith "op" in
+        let name = match String.index_opt op ':' with Some e -> String.sub op 0 e | None -> op in
+        Some (match name with
+          | "put" -> let (k, r) = one_kv (body ()) in APut (k, r)
+          | "same" -> APutSame (kio_name.pk (body ()))
+          | "mod" -> let (k, r) = one_kv (body ()) in AMod (k, r)
+          | "rm" -> ARemove (kio_name.pk (body ()))
+          | "bput" -> let (k, r) = one_kv (body ()) in BPut (k, r)
+          | "copy" -> ACopy (kio_name.pk (body ()))
+          | "reread" -> AReread
+          | _ -> failwith "op")) (String.split_on_char ';' ops) in
+      String.concat ";" (List.map (fun (r, m) -> (if r then "1" else "0") ^ "@" ^ show_pairs kio_name m) (att_hist_run ops))
+    | _ -> "?args")
